@@ -8,7 +8,7 @@ include!("/verif/spec/names.rs");
 // `uuid::Uuid::try_parse` is executed (not assumed).  A fully symbolic 32..45-byte string is out of CBMC's
 // reach (measured > 15 min), so the unit is bounded: a valid 32-hex template in which THREE positions
 // (chosen symbolically) hold ANY ASCII byte, and the length is 31, 32 or 33.
-// @unit C10.guid.template3 props=C10 kind=bounded bound=32-hex-template,3-symbolic-bytes,len=31..33 fn=zbus::guid::validate_guid,uuid::Uuid::try_parse timeout=900
+// @unit C10.guid.template3 props=C10 kind=bounded bound=32-hex-template,3-symbolic-bytes,len=31..33 fn=zbus::guid::validate_guid,uuid::Uuid::try_parse timeout=1800
 #[cfg(not(verif_skip_c10_guid_template__b3))]
 #[cfg(kani)]
 #[kani::proof]
@@ -39,7 +39,7 @@ fn c10_guid_template__b3() {
 
 // The other textual UUID forms that a UUID parser accepts but "exactly 32 hexadecimal digits" does not.
 // Concrete inputs (enumerated), run through the real validator and the public constructors.
-// @unit C10.guid.other_forms props=C10 kind=instance bound=4-concrete-strings fn=zbus::guid::validate_guid,<zbus::Guid.as.TryFrom<&str>>::try_from,zbus::Guid::from_static_str timeout=900
+// @unit C10.guid.other_forms props=C10 kind=instance bound=4-concrete-strings fn=zbus::guid::validate_guid,<zbus::Guid.as.TryFrom<&str>>::try_from,zbus::Guid::from_static_str timeout=1800
 #[cfg(not(verif_skip_c10_guid_other_forms__instances))]
 #[cfg(kani)]
 #[kani::proof]
